@@ -153,7 +153,7 @@ def check_C08(tier, seed):
             run_inst_suite('C08', v, acc, 'C08-inst-%s-%s' % (var, prof), 'MCInst', c, w, d, seed, owns, ['C08'],
                            invariants=inv, properties=props_, profile=prof)
     # Binding B: recorded random histories of the real instance validated against TraceInstance.tla
-    run_inst_traces('C08', v, acc, ['pst', 'clk', 'flt', 'out.len'], tier, seed, variants=('A', 'B', 'D'))
+    run_inst_traces('C08', v, acc, ['pst', 'clk', 'flt', 'out.len'], tier, seed, variants=('A', 'B', 'D', 'S'))
     return finish('C08', tier, seed, 'model_checking', v, acc, t0, EDGE_RULE,
                   COMMON_ASSUME + ['depth-bounded exhaustive exploration of the host-call alphabet (Announces from a better and a worse master '
                                    'incl. duplicate/stale/skipped sequence ids, all timers, BMCA, run-time slave-only and quality changes) for '
@@ -263,7 +263,7 @@ def check_C05(tier, seed):
         open(p, 'w').write(text[-5000:])
         v.add({'kind': 'tlc', 'key': 'tlc:laws', 'detail': 'a law of the data set comparison is false on the finite domain', 'replay': p})
     # Binding B: recorded random histories of the real instance validated against TraceInstance.tla
-    run_inst_traces('C05', v, acc, ['pst', 'ppi', 'gm', 'steps', 'tp', 'path', 'clk', 'snap.rm'], tier, seed, variants=('A', 'B', 'D', 'P'))
+    run_inst_traces('C05', v, acc, ['pst', 'ppi', 'gm', 'steps', 'tp', 'path', 'clk', 'snap.rm'], tier, seed, variants=('A', 'B', 'D', 'P', 'S'))
     # the same laws for ALL integer attribute values: Apalache on the very text of BmcaCompare (symbolic, no enumeration)
     apa_ok = run_apalache('C05', v, 'ApaBmca.tla', 5, 'a law of the data set comparison is false for some integer values')
     return finish('C05', tier, seed, 'model_checking', v, acc, t0,
@@ -621,7 +621,7 @@ def check_C12(tier, seed):
     for item in hs.get('violations', []):
         v.add({'kind': 'predicate', 'key': 'C12/hostsim' + ('-orphan-recovered' if item.get('known') else ''), 'detail': item['detail'], 'replay': item['replay']})
     # Binding B: recorded random histories of the real instance validated against TraceInstance.tla
-    run_inst_traces('C12', v, acc, ['out.T', 'pend', 'out.len', 'snap.rm'], tier, seed, variants=('A', 'D'))
+    run_inst_traces('C12', v, acc, ['out.T', 'pend', 'out.len', 'snap.rm'], tier, seed, variants=('A', 'D', 'S'))
     return finish('C12', tier, seed, 'model_checking', v, acc, t0,
                   EDGE_RULE + '; plus virtual-time continuations of random real histories with (a) silence and (b) a steady better master',
                   COMMON_ASSUME + ['the host arms exactly the timers the returned actions request and a timer fires only while armed (statime-linux main.rs)',
@@ -728,7 +728,7 @@ def check_C03(tier, seed):
                 continue        # C17's alarm
             v.add({'kind': 'predicate', 'key': 'C03/robust', 'detail': item['detail'], 'replay': item['replay']})
     # Binding B: recorded random histories of the real instance validated against TraceInstance.tla
-    run_inst_traces('C03', v, acc, ['panic'], tier, seed, variants=('A', 'B', 'D', 'M', 'F'))
+    run_inst_traces('C03', v, acc, ['panic'], tier, seed, variants=('A', 'B', 'D', 'M', 'F', 'S'))
     return finish('C03', tier, seed, 'exploration', v, acc, t0,
                   'model-derived: TLC enumerates (reachable abstract state, boundary-class input) edges - correction fields {min, max, +-1 ns, +-1 unit, 0}, timestamps '
                   '{0, 1 ns, sub-ns only, second carry, 2^48 s - 1, 2^63 ns - 1}, stepsRemoved {254, 255, 65535}, path trace lengths {1, 127, 128, 129, 200}, TLV sizes around '
@@ -1265,6 +1265,7 @@ INST_TRACE_VARIANTS = {
     'D': {'PCfg': ('<-', 'TI_PCfg_D'), 'PTrace': False},     # acceptable master list on port 1, P2P port 2, master-only port 3
     'M': {'PCfg': ('<-', 'TI_PCfg_A'), 'PTrace': False},     # as A, Announces from fourteen distinct sources (the list holds eight)
     'P': {'PCfg': ('<-', 'TI_PCfg_A'), 'PTrace': False, 'OwnP': ('<-', 'TI_OwnP_P')},   # as A, own priority1 and priority2 differ
+    'S': {'PCfg': ('<-', 'TI_PCfg_A'), 'PTrace': False, 'SO0': True},   # as A, the instance is slave-only from creation
     'F': {'PCfg': ('<-', 'TI_PCfg_A'), 'PTrace': True, 'Fwd': True},   # boundary clock: path trace and the real TlvForwarder between the ports
 }
 INST_TRACE_INVARIANTS = ['OneSlave', 'MasterOnlyNeverSlave', 'ParentQualified']
@@ -1455,7 +1456,7 @@ def check_C13(tier, seed):
     acc.events = rep['measurements']
     cov = {'states': acc.states, 'transitions': acc.transitions, 'traces_validated_against_impl': chunks, 'trace_events_validated': events,
            'evaluations': rep['measurements'], 'distinct_nontrivial': rep['commands'],
-           'rule': 'adversarial measurement sequences (eight families: regular, equal event times, event times running backwards, zero-variance samples, alternating kinds, offsets up to '
+           'rule': 'adversarial measurement sequences (nine families: regular, equal event times, event times running backwards, zero-variance samples, alternating kinds, identical sync/delay samples alternating at one event time, offsets up to '
                    '+-1e9 s, intermittently failing clock, sign-alternating offsets) x servo configurations (step threshold 1 us .. 0.5 s, max frequency 1 .. 5000 ppm) into the real '
                    'KalmanFilter / BasicFilter; every clock command is one trace event; non-trivial = a measurement that produced at least one command (counted: commands)',
            'samples': [{'first_events_of_trace': [json.loads(x) for x in lines[:12]]}], 'suites': acc.suites,
